@@ -244,6 +244,36 @@ def check(case: dict[str, Any]) -> list[tuple[str, str]]:
                             f"{held.pdu.hex()[:80]} (was {ref.hex()[:80]})"))
         except Exception as e:  # noqa: BLE001
             out.append((f"{P}/aliases-caller-arguments", f"{name}(**{_short(kw)}): pdu raised {type(e).__name__} after the caller changed its own lists: {e}"))
+    # a request whose fields are changed through its public attributes serialises the new values: it is the same request as one
+    # built from them
+    if not out:
+        def tweak(v: Any) -> Any:
+            if isinstance(v, bool) or v is None:
+                return v
+            if isinstance(v, int):
+                return v ^ 1
+            if isinstance(v, (bytes, bytearray)):
+                return bytes(v[:-1]) + bytes([v[-1] ^ 1]) if v else v
+            if isinstance(v, list):
+                return [tweak(x) for x in v]
+            return v
+
+        kw2 = {k: (tweak(v) if k not in ("suppress_response",) else v) for k, v in kw.items()}
+        try:
+            a, b = cls(**kw), cls(**kw2)
+            b_pdu = b.pdu
+            if b_pdu != pdu and type(a) is type(b):
+                settable = True
+                for k, v in kw2.items():
+                    if not hasattr(a, k):
+                        settable = False
+                        break
+                    setattr(a, k, getattr(b, k))
+                if settable and pub(a) == pub(b) and a.pdu != b_pdu:
+                    out.append((f"{P}/pdu-ignores-changed-fields", f"{name}(**{_short(kw)}) with its fields set to {_short(kw2)}: pdu {a.pdu.hex()[:80]}, "
+                                f"a request built from these values gives {b_pdu.hex()[:80]}"))
+        except Exception:  # noqa: BLE001  (no setter, or the tweaked values are not a valid request: nothing to compare)
+            pass
     # kwargs that are attributes must be exposed unchanged (list-valued attributes normalised)
     for k, v in kw.items():
         if v is None or not hasattr(obj, k):
